@@ -3,6 +3,7 @@ import HapModel.Drv.C03
 import HapModel.Drv.C04
 import HapModel.Drv.C05
 import HapModel.Drv.C06
+import HapModel.Drv.C11
 import HapModel.Drv.C12
 import HapModel.Drv.C13
 import HapModel.Drv.C14
@@ -30,6 +31,7 @@ def dispatch1 (op : String) (j : Json) : R Json :=
   | "outputVcf" => hOutputVcf j
   | "transform" => hTransform j
   | "hapParse" => hHapParse j
+  | "hapQuery" => hHapQuery j
   | _ => throw s!"unknown op {op}"
 
 /-- {"op":"batch","reqs":[…]} → {"resps":[…]} -/
